@@ -33,6 +33,9 @@ CLAIMED = {
  "C05": ("Hypothesis-generated linear problems (xy basis-function models, indexed linear maps, two-member multi-fits) fitted with both backends vs. closed-form GLS",
          "Generated-input search: do_fit() results (values, covariance with zero rows/columns for fixed parameters, errors, correlations, chi2, cost = chi2 + ln det V, asymmetric errors = +-sigma, member sub-blocks of multi-fits) are compared with the closed-form generalised-least-squares solution in which constraints are extra measurement rows and fixed parameters deleted columns; starts up to 10 sigma away; iminuit and scipy.",
          "Trusts kverif/fitspec.py Ref.gls (numpy); MINIMIZER tolerances 0.03 sigma / 1 % covariance / 1e-3 chi2 (>= 5x measured worst case, << effect of a real defect); cond(V)<=1e6, cond(H)<=1e8.", "DESIGN.md §4 C05"),
+ "C06": ("Hypothesis-generated well-posed nonlinear problems fitted with both backends; validity predicates against the independent reference cost",
+         "Generated-input search: for problems whose reference cost has a well-conditioned minimum near the truth (operational well-posedness, rate reported), the reported optimum must not be undercut by more than 1e-3 at 30 displaced points per backend within the limits (0.01/0.1/0.5 sigma, random directions), iminuit and scipy must agree within 0.05 sigma, fixed parameters keep their exact values, limited ones stay in the closed interval, and the iterative treatment must be a fixed point (refit with the covariance frozen at the reported optimum moves < 0.05 sigma). Families: exponential, power law, Gaussian/Lorentzian peak, sinusoid, logistic (xy, with x-errors and model-relative errors), histogram Poisson / Gauss-approximation, unbinned, nonlinear indexed maps.",
+         "Trusts kverif/fitspec.py Ref.cost as the full parameter-dependent cost; start values within 5 % (frequencies 1.5 %) of the truth; active limits only on amplitude-like parameters; one open known finding (KF-C06-1: scipy + limits stops early) excluded by signature.", "DESIGN.md §4 C06"),
 }
 NOT_YET = "check not built yet in this session (work in progress; see DESIGN.md §10 build order)"
 
